@@ -21,6 +21,14 @@ def step (args : List String) : String :=
     match nats? [aL, aS, nL, l, e, sbn] with
     | some [aL, aS, nL, l, e, sbn] => showRs toString (blockLength aL aS nL l e sbn)
     | _ => "bad-op"
+  | ["blh", aL, aS, nL, l, e, sbn] =>
+    -- hostile call (no partition of anything / out-of-range SBN): PANIC or not, the value is unspecified
+    match nats? [aL, aS, nL, l, e, sbn] with
+    | some [aL, aS, nL, l, e, sbn] =>
+      match blockLength aL aS nL l e sbn with
+      | .ok _ => "ok"
+      | .error _ => "PANIC"
+    | _ => "bad-op"
   | ["fti", _scheme, l, e, z] =>
     match nats? [l, e, z] with
     | some [l, e, z] =>
